@@ -86,6 +86,13 @@ def c10(tier):
     vlib.build_harness()
     wd = workdir("C10")
     mc(v, wd, "MaxT = 3 MaxId = 3 MaxSteps = 3 MaxExt = 2\n Menu <- MenuSmall Seed = TRUE Starts = {0} Limits <- LimitsSome", "stepping")
+    # mechanism: dispatch_event with peek (the repaired code) keeps order and queue time across pauses
+    consts = "Fixed = TRUE MaxEv = 5 MaxT = 2 MaxCalls = 3" if tier == "quick" else "Fixed = TRUE MaxEv = 6 MaxT = 3 MaxCalls = 4"
+    r = tlc("RuntimeMech", f"CONSTANTS {consts}\nSPECIFICATION Spec\nINVARIANT PausedAcceptsLegalAdds\n"
+                           "PROPERTIES HandledInContractOrder PausePure\nCHECK_DEADLOCK FALSE\n", wd)
+    v.add_tlc("RuntimeMech (peek-then-fetch) keeps the contract order and accepts legal adds while paused", r, consts)
+    if r.violation:
+        v.spec_violation("RuntimeMech", r)
     if tier == "quick":
         gen_replay(v, wd, tier, "C10", "MaxT = 2 MaxId = 3 MaxSteps = 3 MaxExt = 1\n Menu <- MenuSmall Seed = TRUE Starts = {0} Limits <- LimitsNone", 8,
                    "all step schedules (<=3 calls) of tie-heavy programs, one external add anywhere")
